@@ -4,6 +4,7 @@ import (
 	"fmt"
 	"sort"
 	"strings"
+	"sync"
 	"time"
 
 	"verifharness/internal/eng"
@@ -51,6 +52,10 @@ type genOpts struct {
 	perturb int
 	// noFrame / noStop: the caller frames the case itself and keeps the instance alive (paired runs)
 	noFrame, noStop bool
+	// slowPoints: schedule points at which the arriving goroutine is kept for `slowFor` while everything else runs on
+	// (e.g. a completion monitor that is slow to subscribe: whatever was started before it must wait for it)
+	slowPoints []string
+	slowFor    time.Duration
 }
 
 func genOptsC01(idx int, tier string) genOpts {
@@ -278,6 +283,30 @@ func runGraphCase(out *rec.Out, fam string, g *eng.Graph, vars map[string]any, v
 		ctl.Perturb(rng.U64(), o.perturb)
 		defer ctl.Remove()
 		stats["perturbed_cases"]++
+	}
+	if len(o.slowPoints) > 0 && o.perturb == 0 {
+		ctl := sched.Install()
+		stop := make(chan struct{})
+		var hw sync.WaitGroup
+		for _, pt := range o.slowPoints {
+			hw.Add(1)
+			go func(pt string) {
+				defer hw.Done()
+				for {
+					a := ctl.Hold(pt)
+					select {
+					case <-a:
+						time.Sleep(o.slowFor)
+						ctl.Release(pt)
+					case <-stop:
+						ctl.Release(pt)
+						return
+					}
+				}
+			}(pt)
+		}
+		defer func() { close(stop); hw.Wait(); ctl.Remove() }()
+		stats["slowed_cases"]++
 	}
 	if sh := rng.Fork(); sh.Intn(2) == 0 { // forked stream: one draw of the case's stream whatever the graph size
 		g.ShuffleDecl(sh.Intn)
